@@ -352,6 +352,9 @@ def corpus(cellname, gdim):
                 F["tensor Piola kinds"] = (inner(Coefficient(CC), A) * v + inner(Coefficient(DC), grad(ww)) * v) * dx + inner(Coefficient(DD), A) * v * dx(1)
         if t >= 2:
             F["interior facets"] = jump(du) * jump(dv) * dS + dot(avg(grad(du)), n("+")) * jump(dv) * dS(1) + du * dv * dx
+    if t == 2 and gdim == 3:
+        # interior facets of an immersed manifold: the two cells sharing a facet are not coplanar, n('-') is not -n('+')
+        F["manifold interior facets with both normals"] = dot(ww("+"), n("-")) * du("-") * jump(dv) * dS + dot(n("+"), n("-")) * du("+") * dv("-") * dS
     if t == 2 and gdim == 2:
         F["inverse of a tensor"] = tr(inv(A)) * v * dx
     if gdim == t and t <= 2:
@@ -759,6 +762,7 @@ def build(run):
                 nfac = TDIM[cellname] + 1
                 facets = list(range(nfac)) if thorough else [0, nfac - 1]
                 numeric_only = fname.startswith("shape derivative") and TDIM[cellname] >= 2 and fname != "shape derivative of a volume functional"
+                numeric_only = numeric_only or (fname.startswith("manifold interior facets") and opts["do_apply_geometry_lowering"])
                 # tetrahedron, forms whose symbolic equation did not discharge within 20 minutes (3x3 inverse Jacobians under Piola maps,
                 # facet geometry): compared numerically at random rational points instead, labelled bounded
                 numeric_only = numeric_only or (heavy and fname in ("covariant Piola mass", "elasticity", "interior facets", "mixed poisson (Piola)", "normal flux")
